@@ -4,7 +4,7 @@ from rules import pool
 
 
 def run(tier):
-    cfgs = ["core/default", "hook/default"] + (["facade/default"] if tier == "thorough" else [])
+    cfgs = ["core/default", "hook/default", "facade/default"]
     run, fx = start("C02", tier,
         "T3/T1 re-check-after-register rule on wait_task_result (lost wake-up window), publish-before-notify order and own-id/own-outcome provenance "
         "in try_run, notify's critical-section order, JoinHandle -> own loop/own id, pool affinity of results vs. task migration, and the C-ABI join "
